@@ -97,7 +97,9 @@ class Strategy(object):
         self.chiN = sqrt(self.dim) * (1 - 1. / (4. * self.dim)
                                       + 1. / (21. * self.dim ** 2))
 
-        self.C = self.params.get("cmatrix", numpy.identity(self.dim))
+        # Copy: the caller keeps its matrix, and update() must not depend on
+        # what the caller does with it afterwards.
+        self.C = numpy.array(self.params.get("cmatrix", numpy.identity(self.dim)))
         self.diagD, self.B = numpy.linalg.eigh(self.C)
 
         indx = numpy.argsort(self.diagD)
